@@ -80,6 +80,18 @@ def front(arg: dict) -> dict:
         out["ib"] = err
         return out
     out["ib"] = [_bgraph(g, special) for g in grapher.get_graphs()]
+    # fifth and sixth rewriting phase: build_and_group_switch_cases (search answers recorded), group_switch_cases
+    sw_answers, err = search_recorded(grapher, "build_and_group_switch_cases")
+    out["sw_answers"] = sw_answers
+    if err:
+        out["sc"] = err
+        return out
+    out["sc"] = [_sgraph(g, special) for g in grapher.get_graphs()]
+    err = run_guarded(grapher, "group_switch_cases")
+    if err:
+        out["gs"] = err
+        return out
+    out["gs"] = [_sgraph(g, special) for g in grapher.get_graphs()]
     return out
 
 
@@ -121,36 +133,110 @@ def _vname(v: Any) -> Any:
     return None
 
 
+def _bvertex(v: Any, special: Any, markers: Any = None) -> dict:
+    d = _item(v["op"], special)
+    op = v["op"]
+    d["n"] = _vname(v)
+    ifs, ife = None, []
+    d["mops"], d["not"], d["multi"] = [], False, False
+    if isinstance(op, special.SsbLabelJump):
+        for m in op.markers:
+            if isinstance(m, special.IfStart):
+                ifs = m.if_id
+                d["not"] = bool(m.is_not)
+                if isinstance(m, special.MultiIfStart):
+                    d["mops"] = [{"off": o.offset, "name": o.op_code.name, "params": [rsjson.param_to_json(p) for p in o.params]}
+                                 for o in m.original_ssb_ifs_ops[1:]]
+            elif not isinstance(m, special.CallJump):
+                ifs = "?" + type(m).__name__
+        # the three facts that make a Python object a multi-if must agree: marker class, root unset, opcode renamed
+        facts = {any(isinstance(m, special.MultiIfStart) for m in op.markers), op.maybe_root is None, op.op_code.name == "ES_OR_MULTI_IF"}
+        d["multi"] = facts.pop() if len(facts) == 1 else "?inconsistent"
+        if d["multi"] is False and op.op_code.name != f"ES_JUMP<{op.root.op_code.name}>":
+            d["multi"] = "?opname " + op.op_code.name
+    elif isinstance(op, special.SsbLabel):
+        for m in (op.markers if markers is None else markers):
+            ife.append(m.if_id if isinstance(m, special.IfEnd) else "?" + type(m).__name__)
+    d["ifs"] = ifs
+    d["ife"] = ife
+    return d
+
+
 def _bgraph(g: Any, special: Any) -> dict:
+    return {"vs": [_bvertex(v, special) for v in g.vs],
+            "es": [[e.source, e.target, e["flow_level"], bool(e["loop"]), bool(e["is_else"])] for e in g.es]}
+
+
+def _mop(o: Any) -> dict:
+    return {"off": o.offset, "name": o.op_code.name, "params": [rsjson.param_to_json(p) for p in o.params]}
+
+
+def _sgraph(g: Any, special: Any) -> dict:
+    """a graph from build_and_group_switch_cases on: _bgraph plus the switch markers ("sws": SwitchStart id of a wrapped switch
+    op - dumped as kind "op" -, "swe": SwitchEnd ids of a label) and the switch_ops of every edge as sixth entry"""
     vs = []
     for v in g.vs:
-        d = _item(v["op"], special)
         op = v["op"]
-        d["n"] = _vname(v)
-        ifs, ife = None, []
-        d["mops"], d["not"], d["multi"] = [], False, False
-        if isinstance(op, special.SsbLabelJump):
-            for m in op.markers:
-                if isinstance(m, special.IfStart):
-                    ifs = m.if_id
-                    d["not"] = bool(m.is_not)
-                    if isinstance(m, special.MultiIfStart):
-                        d["mops"] = [{"off": o.offset, "name": o.op_code.name, "params": [rsjson.param_to_json(p) for p in o.params]}
-                                     for o in m.original_ssb_ifs_ops[1:]]
-                elif not isinstance(m, special.CallJump):
-                    ifs = "?" + type(m).__name__
-            # the three facts that make a Python object a multi-if must agree: marker class, root unset, opcode renamed
-            facts = {any(isinstance(m, special.MultiIfStart) for m in op.markers), op.maybe_root is None, op.op_code.name == "ES_OR_MULTI_IF"}
-            d["multi"] = facts.pop() if len(facts) == 1 else "?inconsistent"
-            if d["multi"] is False and op.op_code.name != f"ES_JUMP<{op.root.op_code.name}>":
-                d["multi"] = "?opname " + op.op_code.name
-        elif isinstance(op, special.SsbLabel):
-            for m in op.markers:
-                ife.append(m.if_id if isinstance(m, special.IfEnd) else "?" + type(m).__name__)
-        d["ifs"] = ifs
-        d["ife"] = ife
+        if isinstance(op, special.SsbLabelJump) and op.label is None:
+            # SsbLabelJump(op, None): a switch op wrapped by build_and_group_switch_cases
+            r = op.maybe_root
+            d = dict({"k": "op"}, **_mop(r)) if r is not None else {"k": "?rootless"}
+            d.update({"n": _vname(v), "ifs": None, "ife": [], "mops": [], "not": False, "multi": False, "swe": []})
+            ms = op.markers
+            d["sws"] = ms[0].switch_id if len(ms) == 1 and isinstance(ms[0], special.SwitchStart) else "?" + ",".join(type(m).__name__ for m in ms)
+            if r is not None and op.op_code.name != f"ES_JUMP<{r.op_code.name}>":
+                d["sws"] = "?opname " + op.op_code.name
+        else:
+            swe = []
+            if isinstance(op, special.SsbLabel):
+                # IfEnd and SwitchEnd markers are dumped as two lists (their interleaving is read by no modelled pass)
+                keep = [m for m in op.markers if not isinstance(m, special.SwitchEnd)]
+                swe = [m.switch_id for m in op.markers if isinstance(m, special.SwitchEnd)]
+                d = _bvertex(v, special, markers=keep)
+            else:
+                d = _bvertex(v, special)
+            d["sws"] = None
+            d["swe"] = swe
         vs.append(d)
-    return {"vs": vs, "es": [[e.source, e.target, e["flow_level"], bool(e["loop"]), bool(e["is_else"])] for e in g.es]}
+    es = []
+    for e in g.es:
+        so = e["switch_ops"]
+        es.append([e.source, e.target, e["flow_level"], bool(e["loop"]), bool(e["is_else"]),
+                   "?empty" if so == [] else [[o.switch_index, o.index, _mop(o.op)] for o in (so or [])]])
+    return {"vs": vs, "es": es}
+
+
+def search_recorded(grapher: Any, phase: str) -> tuple[list, dict]:
+    """runs a real phase that calls the heuristic search find_first_common_next_vertex_in_edges (an ORACLE of the model);
+    its answers are recorded per graph, in call order (None or the ids of the returned edges at the time of return).
+    Returns (answers per graph, {} or {"error": class[, "oracle_raised": True]})."""
+    from explorerscript.ssb_converting.decompiler.graph_building import graph_minimizer as gm
+    graphs = list(grapher.get_graphs())
+    answers: list[list] = [[] for _ in graphs]
+    state = {"oracle_raised": False}
+    orig = gm.find_first_common_next_vertex_in_edges
+
+    def recorder(g: Any, es: Any, *a: Any, **kw: Any) -> Any:
+        k = next(i for i, gg in enumerate(graphs) if gg is g)
+        try:
+            res = orig(g, es, *a, **kw)
+        except BaseException:
+            state["oracle_raised"] = True
+            raise
+        answers[k].append(None if res is None else [e.index for e in res])
+        return res
+
+    gm.find_first_common_next_vertex_in_edges = recorder
+    try:
+        getattr(grapher, phase)()
+    except BaseException as e:  # noqa
+        r = {"error": type(e).__name__}
+        if state["oracle_raised"]:
+            r["oracle_raised"] = True
+        return answers, r
+    finally:
+        gm.find_first_common_next_vertex_in_edges = orig
+    return answers, {}
 
 
 def build_branches_recorded(grapher: Any) -> tuple[list, dict]:
@@ -250,6 +336,8 @@ def _op_from_item(d: dict, special: Any, dt: Any) -> Any:
         op = special.SsbLabel(d["id"], 0)
         for i in d.get("ife") or []:
             op.add_marker(special.IfEnd(i))
+        for i in d.get("swe") or []:
+            op.add_marker(special.SwitchEnd(i))
         return op
     if k == "foreign":
         return special.SsbForeignLabel(special.SsbLabel(d["id"], 1))
@@ -267,6 +355,11 @@ def _op_from_item(d: dict, special: Any, dt: Any) -> Any:
             m.is_not = bool(d.get("not"))
             op.markers.append(m)
         return op
+    if d.get("sws") is not None:
+        # a switch op already wrapped by build_and_group_switch_cases: SsbLabelJump(op, None) with a SwitchStart marker
+        op = special.SsbLabelJump(plain(), None)
+        op.add_marker(special.SwitchStart(d["sws"]))
+        return op
     return plain()
 
 
@@ -280,12 +373,74 @@ def _hand_built(arg_g: dict) -> tuple[Any, Any, Any]:
         name = f"v{v['n']}" if v.get("n") is not None else f"FLR<from{i}>"
         vx = g.add_vertex(name, label=None, op=_op_from_item(v, special, dt), style="solid", shape="ellipse")
         gm.SsbGraphMinimizer._update_vertex_style(vx)
-    for s, t, lv, loop, is_else in arg_g["es"]:
-        g.add_edge(s, t, flow_level=lv, label=None, is_else=bool(is_else), switch_ops=None, loop=bool(loop))
+    for ed in arg_g["es"]:
+        s, t, lv, loop, is_else = ed[:5]
+        so = None
+        if len(ed) > 5 and ed[5]:
+            so = [special.SwitchCaseOperation(si, ix, dt.SsbOperation(o["off"], dt.SsbOpCode(-1, o["name"]), [rsjson.param_from_json(p) for p in o["params"]]))
+                  for si, ix, o in ed[5]]
+        g.add_edge(s, t, flow_level=lv, label=None, is_else=bool(is_else), switch_ops=so, loop=bool(loop))
     grapher = object.__new__(gm.SsbGraphMinimizer)
     grapher._graphs = [g]
     grapher.optimize_ending_opcodes = True
     return g, grapher, special
+
+
+def switch_on_graph(arg: dict) -> dict:
+    """graph-level tie of build_and_group_switch_cases / group_switch_cases: the REAL pass on a hand-built igraph graph, the
+    search replaced by the given answer list (None or a list of edge ids per call).
+    arg: {"g": sgraph json, "pass": "build" | "group", "answers": [...]} -> sgraph json | {"error": class}"""
+    from explorerscript.ssb_converting.decompiler.graph_building import graph_minimizer as gm
+    g, grapher, special = _hand_built(arg["g"])
+    if arg["pass"] == "group":
+        err = run_guarded(grapher, "group_switch_cases")
+        return err if err else _sgraph(g, special)
+    policy = arg.get("answers") if isinstance(arg.get("answers"), dict) else None
+    answers = [] if policy else list(arg.get("answers") or [])
+    used: list = []
+    rnd = random.Random(policy["seed"]) if policy else None
+    orig = gm.find_first_common_next_vertex_in_edges
+
+    def forced(gg: Any, es: Any, *a: Any, **kw: Any) -> Any:
+        if policy:
+            # the answer is drawn when the search is called, on the graph as it is then (edge ids are those of that moment):
+            # mostly in-edges of one label, preferably those that come from Jumps; recorded for the model
+            labels = [v.index for v in gg.vs if isinstance(v["op"], special.SsbLabel) and gg.degree(v, mode="in") > 0]
+            r = rnd.random()
+            if r < 0.1 or gg.ecount() == 0:
+                x = None
+            elif r < 0.85 and labels:
+                ins = [e.index for e in gg.vs[rnd.choice(labels)].in_edges()]
+                fromj = [i for i in ins if isinstance(gg.es[i].source_vertex["op"], special.SsbLabelJump)]
+                pool_ = fromj if fromj and rnd.random() < 0.7 else ins
+                x = [rnd.choice(pool_) for _ in range(rnd.randint(1, 4))] if rnd.random() < 0.4 else rnd.sample(pool_, rnd.randint(1, len(pool_)))
+                if rnd.random() < 0.1:
+                    x.append(rnd.randrange(gg.ecount()))
+            else:
+                x = [rnd.randrange(gg.ecount()) for _ in range(rnd.randint(0, 3))]
+            used.append(x)
+        else:
+            if not answers:
+                raise OracleExhausted()
+            x = answers.pop(0)
+        if x is None:
+            return None
+        if x and max(x) >= gg.ecount():
+            raise OracleEdgeMissing()
+        return [gg.es[i] for i in x]
+
+    gm.find_first_common_next_vertex_in_edges = forced
+    try:
+        grapher.build_and_group_switch_cases()
+    except BaseException as e:  # noqa
+        return dict({"error": type(e).__name__}, **({"answers_used": used} if policy else {}))
+    finally:
+        gm.find_first_common_next_vertex_in_edges = orig
+    return dict(_sgraph(g, special), **({"answers_used": used} if policy else {}))
+
+
+def switch_on_graphs(args: list[dict]) -> list[dict]:
+    return [switch_on_graph(a) for a in args]
 
 
 def group_on_graph(arg: dict) -> dict:
